@@ -409,6 +409,42 @@ def make_default_kw_case(eq, da, db, ua, ub, shape):
     return Case(f"C09/defaults/{eq}/{da}>{db}/{ua}>{ub}/{shape_tag(shape)}", h, bounds="symbolic: value(s); mu, gamma defaulted")
 
 
+def make_history_case(eq, da, db, ua, ub, vary):
+    """history independence: the same request repeated in one process with other keyword values (and once with the
+    defaults) must follow the formula with the keywords of THAT call - nothing may be remembered from an earlier call
+    (memoised helper values keyed on too little). Caches are only cleared at path start, so all calls share one history."""
+    def h(ctx):
+        mods = ctx.mods
+        K = consts(mods)
+        if eq in NONLINEAR:
+            ctx.no_batch = True
+        X = input_symbols(ctx, eq, da, (), K)
+        sb = float(mods["unyt"].Unit(ub).base_value)
+        kws = []
+        base = {k: ctx.real(k, pos=True) for k in EQ_KW[eq]}
+        kws.append(dict(base))
+        second = dict(base)
+        second[vary] = ctx.real(vary + "2", pos=True)
+        kws.append(second)
+        kws.append({})          # documented defaults
+        kws.append(dict(base))  # and the first request again
+        for i, kw in enumerate(kws):
+            q, xs, sa = make_quantity(ctx, X, ua, ())
+            for e in ("to", "convert_to_units"):
+                vals, u, r = run_entry(ctx, q.copy(), ub, eq, kw, e)
+                ctx.require(f"returns a value/call{i}/{e}", vals is not None and len(vals) == 1)
+                if vals is None:
+                    continue
+                ctx.observe(f"call{i}/{e}", vals)
+                mu = kw.get("mu", 0.6)
+                gamma = kw.get("gamma", 5.0 / 3.0)
+                ctx.require(f"formula with the keywords of this call/call{i}/{e}",
+                            formula_holds(eq, da, db, xs[0] * sa, vals[0] * sb, K, mu, gamma), entry=e)
+
+    return Case(f"C09/history/{eq}/{da}>{db}/{ua}>{ub}/vary-{vary}", h, bounds="symbolic: value, mu, gamma, second keyword value; 4 calls in one history",
+                budget_s=1800, weight=8)
+
+
 ALL_DIM_UNITS = dict(UNITS, **EXTRA_UNITS)
 
 
@@ -572,6 +608,12 @@ def cases(tier, mods):
             pairs = _cover(UNITS[da], UNITS[db])[: 1 if quick else None]
             for ua, ub in pairs:
                 out.append(make_default_kw_case(eq, da, db, ua, ub, () if quick else (2,)))
+    # ---- history independence of the keyword parameters
+    for eq, kws in EQ_KW.items():
+        for da, db in itertools.permutations(EQ_DIMS[eq], 2):
+            ua, ub = _cover(UNITS[da], UNITS[db])[0]
+            for vary in kws:
+                out.append(make_history_case(eq, da, db, ua, ub, vary))
     # ---- uncovered requests
     for eq in EQ_DIMS:
         for da, uas in ALL_DIM_UNITS.items():
